@@ -6,5 +6,8 @@ MCIsos == DbdNames \cup {"Xx999", "", "Co60", "Mo10"}
 MCLevels == -1..17
 MCModeIds == 0..25
 MCGaNone == {}
-MCGaMounted == {<<"Mo100", 21>>}
+\* a partially installed dataset tree: every gA mode is mounted for some isotope and missing for another one, and no isotope
+\* has all four (a mode routed to another process' table is then accepted or refused wrongly)
+MCGaMounted == {<<"Mo100", 21>>, <<"Mo100", 22>>, <<"Mo100", 24>>, <<"Se82", 23>>, <<"Cd116", 22>>, <<"Cd116", 24>>,
+                <<"Nd150", 21>>, <<"Nd150", 23>>}
 =============================================================================
